@@ -6,3 +6,4 @@ import QG.Props.C16
 #print axioms QG.C16.fix_counts_keys
 #print axioms QG.C16.reverse_bitsBE_lt
 #print axioms QG.C16.fix_counts_twice
+#print axioms QG.C16.fix_counts_of_measurement
